@@ -345,4 +345,44 @@ Proof.
       * apply IHg. intros g' Hin. apply Hskip. right. exact Hin.
 Qed.
 
+(* ---------- any interleaving of the children ---------- *)
+
+(* a field only sees the children that hit it *)
+Lemma absorb_kids_filter : forall f kids x,
+  absorb_kids f x kids = absorb_kids f x (filter (fun c => key_hit f (xname c)) kids).
+Proof.
+  intros f kids. induction kids as [|c r IH]; intros x; [reflexivity|].
+  cbn [absorb_kids filter]. destruct (key_hit f (xname c)) eqn:E.
+  - cbn [absorb_kids]. rewrite E. destruct (hit_action f x c); cbn [rbind]; [apply IH | reflexivity].
+  - apply IH.
+Qed.
+
+(* kids' is a rearrangement of kids that keeps, for every field, the sequence of its own
+   children: children of different fields may be interleaved in any way, children that no
+   field takes (unknown elements) may be added, dropped or moved freely *)
+Definition same_per_field (fs : list field) (kids kids' : list xml) : Prop :=
+  forall f, In f fs ->
+    filter (fun c => key_hit f (xname c)) kids' = filter (fun c => key_hit f (xname c)) kids.
+
+Lemma absorb_same_per_field : forall kids kids' gs st st',
+  (forall f, In f gs -> filter (fun c => key_hit f (xname c)) kids' = filter (fun c => key_hit f (xname c)) kids) ->
+  Forall3 (fun f x x' => absorb_kids f x kids = Ok x') gs st st' ->
+  Forall3 (fun f x x' => absorb_kids f x kids' = Ok x') gs st st'.
+Proof.
+  intros kids kids' gs st st' Hs H. induction H as [|f x x' fs' st0 st0' Hh Ht IH]; constructor.
+  - rewrite absorb_kids_filter, (Hs f (or_introl eq_refl)), <- absorb_kids_filter. exact Hh.
+  - apply IH. intros g Hg. apply Hs. right. exact Hg.
+Qed.
+
+Theorem kids_any_interleaving : forall kids kids' fs st st',
+  parents_ok fs = true ->
+  nodup_strb (elem_keys fs) = true ->
+  same_per_field fs kids kids' ->
+  Forall3 (fun f x x' => absorb_kids f x kids = Ok x') fs st st' ->
+  unmarshal_kids sch unm fs st [] false kids' = Ok st'.
+Proof.
+  intros kids kids' fs st st' Hpo Hnd Hs H. apply unmarshal_kids_pointwise; [exact Hpo | exact Hnd|].
+  exact (absorb_same_per_field kids kids' fs st st' Hs H).
+Qed.
+
 End Kids.
